@@ -1,5 +1,5 @@
 import random
-from typing import Any, cast
+from typing import Any, Optional, cast
 
 from flamapy.core.models import VariabilityModel
 from flamapy.core.operations import Operation
@@ -21,7 +21,7 @@ class GenerateRandomAttribute(Operation):
     def __init__(self) -> None:
         self.result: FeatureModel
         self._attribute_name: str = ''
-        self._attribute_domain: Domain
+        self._attribute_domain: Optional[Domain] = None
         self._only_leaf_features: bool = False
 
     def get_result(self) -> FeatureModel:
